@@ -117,8 +117,7 @@ def apply_rules(text, opts, counts, recursor_file):
     run('R11', X.r11_slice_pat)
     run('R12', X.r12_const_block)
     run('R13', X.r13_let_chain)
-    if opts.get('ordmin'):
-        run('R14', X.r14_ord_min)
+    run('R14', X.r14_ord_min)
     if opts.get('withmgr'):
         run('R15', X.r15_with_manager, opts['withmgr'])
     return text
